@@ -118,7 +118,8 @@ def _routes(log: List[Any]) -> List[type]:
             return [(httpProtocolTypes.HTTP, r'/ok-small$'), (httpProtocolTypes.HTTP, r'/ok-big$'),
                     (httpProtocolTypes.HTTP, r'/ok-empty$'), (httpProtocolTypes.HTTP, r'/ok-plain$'),
                     (httpProtocolTypes.HTTP, r'/redirect$'), (httpProtocolTypes.HTTP, r'/seeother$'),
-                    (httpProtocolTypes.HTTP, r'/ok-plain-big$'), (httpProtocolTypes.HTTP, r'/ok-noise$')]
+                    (httpProtocolTypes.HTTP, r'/ok-plain-big$'), (httpProtocolTypes.HTTP, r'/ok-noise$'),
+                    (httpProtocolTypes.HTTP, r'/ok-own-length$')]
 
         def handle_request(self, request: Any) -> None:
             p = (request.path or b'/').split(b'?')[0]
@@ -136,6 +137,11 @@ def _routes(log: List[Any]) -> List[type]:
             elif p == b'/ok-noise':
                 import random
                 self.client.queue(okResponse(content=random.Random(66).randbytes(4000)))
+            elif p == b'/ok-own-length':
+                # a caller that supplies a Content-Length of its own (the length of what it passes in): the builder decides what
+                # the body on the wire is (compressed or not), so the header has to describe that
+                body = b'caller supplied length ' * 30
+                self.client.queue(okResponse(content=body, headers={b'Content-Length': b'%d' % len(body), b'X-R': b'own'}))
             elif p == b'/redirect':
                 self.client.queue(permanentRedirectResponse(b'http://elsewhere.example/x'))
             else:
@@ -165,7 +171,7 @@ def run_one(tape: Any, cfg: Dict[str, Any], forbid: FrozenSet[str] = frozenset()
             if form == 'origin':
                 path = [b'/ok-small', b'/ok-big', b'/ok-empty', b'/ok-plain', b'/redirect', b'/seeother',
                         b'/hello.txt', b'/tiny.txt', b'/nosuch', b'/', b'/ok-plain-big', b'/ok-noise',
-                        b'/noise.bin'][tape.draw(13, 'wpath')]
+                        b'/noise.bin', b'/ok-own-length'][tape.draw(14, 'wpath')]
             from ..httpgen import METHODS
             raw, _ = gen_request(tape, g, form=form, host=b'up.example',
                                  port=[None, 80, 8080][tape.draw(3, 'port')] if form != 'connect' else 443,
